@@ -47,7 +47,7 @@ def run(rep: Report) -> None:
         hidden = None
         for p in ck.paths:
             for e in p.events:
-                if e[0] in ("memoised", "extra-attr-store", "net-attr-store", "var-not-fresh"):
+                if e[0] in ("memoised", "extra-attr-store", "net-attr-store", "var-not-fresh", "global-state-store"):
                     hidden = e
                 if e[0] == "iterates-all-links" and bad is None:
                     bad = ("SELF", "rho", None, [("s", e[2])])
